@@ -1,6 +1,7 @@
 //go:build verif
 
 //verif:dir p2p/protocol/identify
+//verif:also C08 VerifC13bConsumeMessage
 //verif:hook core/peer IDFromPublicKey
 //verif:hook core/record Envelope.Record
 //verif:hook core/record UnmarshalEnvelope
@@ -94,7 +95,7 @@ func (ps *vC13ps) AddAddrs(p peer.ID, a []ma.Multiaddr, ttl time.Duration) {
 		ps.firstAdded = a[0]
 	}
 }
-func (ps *vC13ps) Addrs(p peer.ID) []ma.Multiaddr      { ps.chk(p); return ps.stored }
+func (ps *vC13ps) Addrs(p peer.ID) []ma.Multiaddr       { ps.chk(p); return ps.stored }
 func (ps *vC13ps) Put(p peer.ID, k string, v any) error { ps.chk(p); return nil }
 func (ps *vC13ps) PubKey(p peer.ID) crypto.PubKey       { ps.chk(p); return ps.curKey }
 func (ps *vC13ps) AddPubKey(p peer.ID, k crypto.PubKey) error {
